@@ -18,6 +18,9 @@ structure TAcc where
   err : Option String := none
   nops : Nat := 0
   tags : List String := []
+  mn : Nat := 0
+  spawns : Nat := 0              -- threads created by execute(), as counted by the harness
+  mdiv : List String := []       -- model-internal (policy) divergences: spawn rule, voluntary-exit rule
 
 def fail (a : TAcc) (m : String) : TAcc := { a with err := some s!"op#{a.nops} {m}" }
 
@@ -73,9 +76,49 @@ partial def takeEvents (a : TAcc) : TAcc :=
       | some k, some thr, some q =>
         takeEvents { a' with h := { a'.h with cbs := a'.h.cbs.push { k := k, thr := thr, q := q } } }
       | _, _, _ => fail a s!"unparsable [{l}]"
+    | ["W", i, ws, we] =>
+      match i.toNat?, ws.toNat?, we.toNat? with
+      | some i, some ws, some we =>
+        takeEvents { a' with h := { a'.h with workers := a'.h.workers.push { thr := i, s := ws, e := we } } }
+      | _, _, _ => fail a s!"unparsable [{l}]"
     | ["E", "extra", k, _] =>
       takeEvents { a' with h := { a'.h with extra := k.toNat?.getD 0 :: a'.h.extra } }
     | _ => fail a s!"impl=[{l}] expected an event line or `P fin`"
+
+/-- the model's spawn decision for an execute() issued in a quiescent pool -/
+def modelSpawns (mn mx thr idle undoN : Nat) : Bool :=
+  let s : State := { cfg := { min := mn, max := mx }, undo := List.replicate undoN ⟨0, 0, false⟩, idle := idle,
+                     cab := List.range thr, nW := thr }
+  decide ((step s (.execute 0 false)).nW > s.nW)
+
+/-- the model's voluntary-exit decision of a worker that comes back to the loop top with an empty queue while
+the other `thr - 1` workers are idle -/
+def modelExits (mn mx thr : Nat) : Bool :=
+  let s : State := { cfg := { min := mn, max := mx }, idle := thr - 1, cab := List.range thr, nW := thr, pc := fun _ => .start }
+  match (step s (.enter 0)).pc 0 with
+  | .exitVol _ => true
+  | _ => false
+
+def mdivAdd (a : TAcc) (m : String) : TAcc := { a with mdiv := a.mdiv ++ [s!"op#{a.nops} {m}"] }
+
+/-- `M spawn <spawned> <quiescent> <threads> <idle> <waiting>` after every exec line -/
+def takeSpawn (a : TAcc) : TAcc :=
+  match nextLine a with
+  | (none, _) => fail a "implementation output ends before the spawn record (crash / timeout)"
+  | (some l, a') =>
+    match (words l).drop 2 |>.mapM String.toNat? with
+    | some [sp, q, thr, idle, un] =>
+      if !(l.startsWith "M spawn ") then fail a s!"impl=[{l}] expected a spawn record" else
+      let a' := { a' with spawns := a'.spawns + sp }
+      if !a'.h.isPool then (if sp != 0 then mdivAdd a' "WorkThread::execute created a thread" else a')
+      else if sp > 1 then mdivAdd a' s!"execute created {sp} threads"
+      else if q == 1 && a'.ready then
+        let want := modelSpawns a'.mn a'.h.max thr idle un
+        if want != (sp == 1) then
+          mdivAdd a' s!"spawn rule: quiescent pool threads={thr} idle={idle} waiting={un} min={a'.mn} max={a'.h.max}: execute created {sp} thread(s), model {if want then 1 else 0}"
+        else { a' with tags := (if sp == 1 then "spawn-checked-1" else "spawn-checked-0") :: a'.tags }
+      else a'
+    | _ => fail a s!"impl=[{l}] expected a spawn record"
 
 def boundedNat (s : String) (hi : Nat) : Option Nat := do
   let n ← s.toNat?
@@ -93,7 +136,7 @@ def stepOp (a : TAcc) (line : String) : TAcc :=
       let isPool := kind == "pool"
       let ok := if isPool then (Cfg.ok { min := mn, max := mx }) else true
       let a1 := expectExact a ("P init " ++ (if ok then "1" else "0"))
-      { a1 with configured := true, ready := ok,
+      { a1 with configured := true, ready := ok, mn := (if isPool then mn else 1),
                 h := { a1.h with isPool := isPool, max := if isPool then mx else 1 },
                 tags := (if isPool then (if mn == mx then "pool-fixed" else if mn == 0 then "pool-min0" else "pool-elastic") else "workthread") :: a1.tags }
     | _, _, _, _ => bad
@@ -109,13 +152,13 @@ def stepOp (a : TAcc) (line : String) : TAcc :=
           match qb.toNat?, qa.toNat? with
           | some qb, some qa =>
             if k == "null" then
-              if a.ready then fail a s!"execute returned a null token although the pool is ready" else a'
+              if a.ready then fail a s!"execute returned a null token although the pool is ready" else takeSpawn a'
             else if !a.ready then fail a s!"execute returned a token [{l}] although the pool is not ready"
             else if k.toNat? != some a.h.tasks.size then fail a s!"unexpected task number [{l}]"
             else
               -- WorkThread has a single queue: every task at the same level
               let lvl := if a.h.isPool then levelOf p else 2
-              { a' with h := { a'.h with tasks := a'.h.tasks.push { lvl := lvl, cb := cb == "1", qb := qb, qa := qa } } }
+              takeSpawn { a' with h := { a'.h with tasks := a'.h.tasks.push { lvl := lvl, cb := cb == "1", qb := qb, qa := qa } } }
           | _, _ => fail a s!"unparsable [{l}]"
         | _ => fail a s!"impl=[{l}] expected an exec line"
     | _, _ => bad
@@ -177,20 +220,44 @@ def stepOp (a : TAcc) (line : String) : TAcc :=
     | (some "P drain timeout", _) => fail a "drain: an accepted, not cancelled task was not executed within the watchdog time (lost wake-up?)"
     | (some l, _) => fail a s!"impl=[{l}] expected a drain line"
     | (none, _) => fail a "implementation output ends at drain (crash / timeout)"
+  | ["settle"] =>
+    if !a.configured then bad else
+    match nextLine a with
+    | (some "P settle ok", a') =>
+      (match nextLine a' with
+       | (none, _) => fail a "implementation output ends at settle (crash / timeout)"
+       | (some l, a2) =>
+         if l == "M quiet -" then a2 else
+         match (words l).drop 2 |>.mapM String.toNat? with
+         | some [thr, idle, doing, un, live] =>
+           if !(l.startsWith "M quiet ") then fail a s!"impl=[{l}] expected a quiescence record" else
+           let a2 := { a2 with tags := "settled" :: a2.tags }
+           if a2.cleaned || !a2.ready then a2
+           else if doing != 0 || un != 0 then mdivAdd a2 s!"quiescent pool reports doing={doing} waiting={un}"
+           else if idle != thr || live != thr then mdivAdd a2 s!"quiescent pool: threads={thr} idle={idle} live worker threads={live}"
+           else if thr < a2.mn then mdivAdd a2 s!"voluntary-exit rule: quiescent pool has {thr} workers, fewer than min={a2.mn}"
+           else if modelExits a2.mn a2.h.max thr then
+             mdivAdd a2 s!"voluntary-exit rule: quiescent pool keeps {thr} idle workers, min={a2.mn}: the model's worker exits"
+           else { a2 with tags := "exit-rule-checked" :: a2.tags }
+         | _ => fail a s!"impl=[{l}] expected a quiescence record")
+    | (some "P settle timeout", _) => fail a "settle: the pool did not become quiescent within the watchdog time (a task is never executed, or a worker never settles)"
+    | (some l, _) => fail a s!"impl=[{l}] expected a settle line"
+    | (none, _) => fail a "implementation output ends at settle (crash / timeout)"
   | ["cleanup"] =>
     if !a.configured then bad else
     match nextLine a with
     | (none, _) => fail a "implementation output ends at cleanup (crash / timeout)"
     | (some l, a') =>
       match words l with
-      | ["P", "cleanup", "ok", qb, qa] =>
-        match qb.toNat?, qa.toNat? with
-        | some qb, some qa =>
+      | ["P", "cleanup", "ok", qb, qa, live] =>
+        match qb.toNat?, qa.toNat?, live.toNat? with
+        | some qb, some qa, some live =>
+          if live != 0 then fail a s!"cleanup() returned while {live} worker thread(s) had not finished (not joined)" else
           let first := a'.h.cleanup.isNone
           { a' with ready := false, cleaned := true,
                     h := if first then { a'.h with cleanup := some (qb, qa) } else a'.h,
                     tags := "cleanup" :: a'.tags }
-        | _, _ => fail a s!"unparsable [{l}]"
+        | _, _, _ => fail a s!"unparsable [{l}]"
       | ["P", "cleanup", "timeout"] => fail a "cleanup() did not return within the watchdog time: a worker is blocked for ever (DEADLOCK)"
       | _ => fail a s!"impl=[{l}] expected a cleanup line"
   | ["fin"] => if a.fin then bad else takeEvents a
@@ -217,7 +284,12 @@ def finish (d : DS) : List String :=
       else match check a.h with
         | .error e => ["B " ++ " ".intercalate (tags0.eraseDups), "reject " ++ e]
         | .ok n =>
-          let tags := tags0 ++ (if n > 0 then ["order-checked"] else [])
+          -- thread accounting: threads created = min (or 1 for WorkThread) + spawns
+          let expectW := (if a.h.isPool then (if a.configured && (Cfg.ok { min := a.mn, max := a.h.max }) then a.mn else 0) else 1) + a.spawns
+          let md := a.mdiv ++ (if a.configured && a.h.workers.size != expectW then
+            [s!"thread accounting: {a.h.workers.size} worker threads were created, expected min + spawns = {expectW}"] else [])
+          let tags := tags0 ++ (if n > 0 then ["order-checked"] else []) ++ (if md.isEmpty then [] else ["m-divergence"])
+          md.map (fun m => "mdiv " ++ m) ++
           ["B " ++ " ".intercalate (tags.eraseDups),
            s!"ok ops={a.nops} tasks={a.h.tasks.size} ran={a.h.bodies.size} cbs={a.h.cbs.size} queries={a.h.queries.size} orderpairs={n}"]
 
